@@ -52,6 +52,17 @@ def member(rng, name_len=None, size=None, blank=False):
     if size is None:
         size = rng.choice([0, 1, 2, 3, 59, 60, 61, rng.randrange(0, 400), rng.randrange(0, 5000)])
     data = bytes(rng.randrange(256) for _ in range(size))
+    # decimal columns may be written zero-padded ("0000000013", "000501", "0998", "08"): they are decimal all the same
+    def zp(t, width):
+        return t if not t or rng.random() > 0.25 else t.rjust(rng.randrange(len(t), width + 1), b"0")
+    m = _member(rng, name, slash, blank, data)
+    m["ts"], m["uid"], m["gid"] = zp(m["ts"], 12), zp(m["uid"], 6), zp(m["gid"], 6)
+    if rng.random() < 0.2:
+        m["size_text"] = str(len(data)).encode().rjust(rng.randrange(1, 11), b"0")
+    return m
+
+
+def _member(rng, name, slash, blank, data):
     return {"name": name, "slash": slash, "pad": rng.choice([b"\n", b"\n", b"\n", b"\x00", b" ", b"`", b"!"]),
             "ts": b"" if blank else str(rng.randrange(0, 10**10)).encode(),
             "uid": b"" if blank else str(rng.randrange(0, 100000)).encode(),
